@@ -383,7 +383,7 @@ func runC09Catalog(c C09CatalogCase) string {
 		}
 		names := []string{"t1", "t2", "tbl", "T", "nope"}
 		for _, n := range names {
-			for v := 0; v <= 4; v++ {
+			for _, v := range []int{0, 1, 2, 3, 4, 5, 9, 10, 11, 12, 99, 100, 101, 1000, 1001} {
 				got := cat.FindExact(n, v)
 				want, ok := last[key{n, v}]
 				if !ok {
@@ -482,7 +482,7 @@ func genC09Catalog(t *rapid.T) C09CatalogCase {
 	var c C09CatalogCase
 	n := gen.Range(t, 0, 6)
 	for i := 0; i < n; i++ {
-		s := SharedJ{Name: gen.Pick(t, []string{"t1", "t2", "tbl", "T"}), Version: gen.Range(t, 1, 4), MaxID: -1}
+		s := SharedJ{Name: gen.Pick(t, []string{"t1", "t2", "tbl", "T"}), Version: gen.Pick(t, []int{1, 2, 3, 4, 9, 10, 11, 99, 100, 101, 1000}), MaxID: -1}
 		k := gen.Range(t, 0, 5)
 		for j := 0; j < k; j++ {
 			s.Symbols = append(s.Symbols, gen.Pick(t, sstSymbolPool))
